@@ -374,6 +374,20 @@ func (ex *Exec) pushEdge(fr *Frame, from, to *ssa.BasicBlock, st *State, incomin
 		ex.loopBack(fr, fr.loops[to], st, from)
 		return
 	}
+	if fr == ex.top {
+		for _, li := range fr.loops {
+			if li.spec == nil || len(li.spec.AtExit) == 0 || !li.blocks[from] || li.blocks[to] {
+				continue
+			}
+			name := fmt.Sprintf("%s#loop%d", funcKey(ex.top.fn), li.number)
+			fr.curLoop = li.number
+			for _, ae := range li.spec.AtExit {
+				g := ex.specBool(fr, st, ae)
+				ex.obligeNamed(st, fmt.Sprintf("%s.%s@b%d", name, invNo(ae), from.Index), "loop.exit", g, "holds whenever the loop is left: "+ae.Text, loopPos(li))
+			}
+			fr.curLoop = 0
+		}
+	}
 	incoming[to] = append(incoming[to], edgeState{from, st})
 }
 
@@ -440,7 +454,11 @@ func (ex *Exec) loopBack(fr *Frame, li *loopInfo, st *State, from *ssa.BasicBloc
 		ex.obligeNamed(st, fmt.Sprintf("%s.step.%s@b%d", name, invNo(inv), from.Index), "loop.step", g, "loop invariant preserved: "+inv.Text, pos)
 	}
 	for _, ab := range li.spec.AtBack {
-		g := ex.specBool(fr, st, ab)
+		g, live := ex.specBoolIfLive(fr, st, ab)
+		if !live {
+			// the clause names a local whose declaration this path did not reach (e.g. a continue before it)
+			continue
+		}
 		ex.obligeNamed(st, fmt.Sprintf("%s.%s@b%d", name, invNo(ab), from.Index), "loop.back", g, "holds whenever the loop continues: "+ab.Text, pos)
 	}
 	if li.spec.Variant != nil {
